@@ -700,6 +700,13 @@ def _observe(env: Env16, symbols, typenames, pairs=(), final=True):
         except Exception as e:      # noqa
             obs[f'{s1}{opn}{s2}'] = 'exc:' + type(e).__name__
     curs = Money.units()
+    for c in curs:
+        try:
+            obs['currency:' + c.symbol] = [
+                str(c.smallest_fraction), str(c.quantum), c.name,
+                str(Money('1.23456', c).amount)]
+        except Exception as e:      # noqa
+            obs['currency:' + c.symbol] = 'exc:' + type(e).__name__
     dates = [dt.date.fromisoformat(d) for d in PROBE_DATES]
     for cn in sorted(env.convs):
         conv = env.convs[cn]
